@@ -3,7 +3,8 @@ package main
 // F2 (C01, C08): builtins are recognised by Value.Name(): a user function named like a builtin
 //                (clear, close, delete, print, println, cap, recover, ...) loses its flow.
 // F3 (C01, C08): min/max with a number of operands other than 2 are declared handled but not transferred.
-// Native run prints the tainted string three times; `argot taint` reports only the `real` flow.
+// Native run prints the tainted string three times; at the pinned commit `argot taint` reported only the
+// `real` flow. Repaired by a4d0e93 (F2) and 698a6c8 (F3) — kept as a regression case.
 
 func source() string { return "tainted" }
 func sink(s string)  { println(s) }
@@ -14,9 +15,9 @@ func real(s string) string  { return s + "!" }
 func main() {
 	x := source()
 	y := min(x, "zzz", "yyy")
-	sink(y) // missed (F3)
+	sink(y) // reported (was missed: F3, repaired by 698a6c8)
 	z := clear(source())
-	sink(z) // missed (F2)
+	sink(z) // reported (was missed: F2, repaired by a4d0e93)
 	w := real(source())
 	sink(w) // reported
 }
